@@ -31,7 +31,7 @@ theorem succ_facts {s s' : St} {t : Tid} {a : Act Op} (hi : Inv s) (hs : step s 
     -- a returning waiter
     (∀ r dl, s.pc u = .wUnlock r dl → s'.pc u = .wUnlock r dl ∨ (s'.pc u = .idle ∧ s'.ret u = some (.bool r))) ∧
     -- (re-)acquisition of the mutex while the flag is set
-    (∀ dl, s.flag = true → s.pc u = .wLock dl → s'.pc u = .wLock dl ∨ s'.pc u = .wUnlock true dl) ∧
+    (∀ dl, s.flag = true → s.pc u = .wLock dl → s'.pc u = .wLock dl ∨ ∃ dl', s'.pc u = .wUnlock true dl') ∧
     (∀ dl b, s.flag = true → s.pc u = .wRelock dl b → s'.pc u = .wRelock dl b ∨ s'.pc u = .wUnlock (!b) dl) ∧
     -- a blocked waiter
     (∀ dl, s.pc u = .wBlocked dl → s'.pc u = .wBlocked dl ∨ ∃ b, s'.pc u = .wRelock dl b) ∧
@@ -126,7 +126,7 @@ theorem stage_lock (r : Run St Op step) (h0 : Reach set0 now spur (r.st 0)) (hwf
     (n : Nat) (hset : ∀ m, n ≤ m → (r.st m).flag = true) (k : Nat) (hk : n ≤ k) (u : Tid) (dl : Option Deadline) (b : Bool)
     (hu : ((r.st k).pc u = .wLock dl ∧ b = false) ∨ (r.st k).pc u = .wRelock dl b) :
     ∃ m, k ≤ m ∧ (r.st m).pc u = .idle ∧ (r.st m).ret u = some (.bool (!b)) := by
-  have key : ∃ m, k ≤ m ∧ (r.st m).pc u = .wUnlock (!b) dl := by
+  have key : ∃ m dl', k ≤ m ∧ (r.st m).pc u = .wUnlock (!b) dl' := by
     rcases hu with ⟨hu, hb⟩ | hu
     · subst hb
       obtain ⟨m, hm, hP, hN⟩ := sf_leaves r hsf (fun s => s.pc u = .wLock dl) u k hu
@@ -136,9 +136,9 @@ theorem stage_lock (r : Run St Op step) (h0 : Reach set0 now spur (r.st 0)) (hwf
         (fun m _ hP ht hP' => by
           have := (succ_facts (inv_reach (reach_run r h0 m)) (r.ok m) u).2.2.2.2.2.1 ht.1 ht.2
           exact this (by rw [hP', hP]))
-      rcases (succ_facts (inv_reach (reach_run r h0 m)) (r.ok m) u).2.1 dl (hset m (by omega)) hP with h | h
+      rcases (succ_facts (inv_reach (reach_run r h0 m)) (r.ok m) u).2.1 dl (hset m (by omega)) hP with h | ⟨dl', h⟩
       · exact absurd h hN
-      · exact ⟨m + 1, by omega, h⟩
+      · exact ⟨m + 1, dl', by omega, h⟩
     · obtain ⟨m, hm, hP, hN⟩ := sf_leaves r hsf (fun s => s.pc u = .wRelock dl b) u k hu
         (fun hall j hj => by
           obtain ⟨i, hi, hfree⟩ := free_io r h0 hwf j
@@ -148,9 +148,9 @@ theorem stage_lock (r : Run St Op step) (h0 : Reach set0 now spur (r.st 0)) (hwf
           exact this (by rw [hP', hP]))
       rcases (succ_facts (inv_reach (reach_run r h0 m)) (r.ok m) u).2.2.1 dl b (hset m (by omega)) hP with h | h
       · exact absurd h hN
-      · exact ⟨m + 1, by omega, h⟩
-  obtain ⟨m, hm, hpc⟩ := key
-  obtain ⟨m', hm', h1, h2⟩ := stage_unlock r h0 hwf m u (!b) dl hpc
+      · exact ⟨m + 1, dl, by omega, h⟩
+  obtain ⟨m, dl', hm, hpc⟩ := key
+  obtain ⟨m', hm', h1, h2⟩ := stage_unlock r h0 hwf m u (!b) dl' hpc
   exact ⟨m', by omega, h1, h2⟩
 
 /-- stage 1: a blocked waiter leaves the wait set while the flag is set (the pending broadcast is executed) -/
